@@ -8,6 +8,7 @@ field given as a record of operations (executed with `Rat`):
 `none` results model NumPy errors (`max` of an empty array, index out of range).
 -/
 import PeroVerif.Model.Bag
+import PeroVerif.Generated.Confidence
 
 namespace Conf
 open PB Bag
@@ -32,7 +33,8 @@ def minL (o : COps R) : List R → Option R
 /-- `row[c] = 0` -/
 def zeroAt (o : COps R) (row : List R) (c : Nat) : List R := row.set c o.zero
 
-/-- One label of `get_line_confidence`. `al` is the alignment extended by the sentinel `max(1000, T)`. -/
+/-- One label of `get_line_confidence`. `al` is the alignment extended by the sentinel (`Gen.Confidence.sentinel`, GENERATED);
+the window border `Gen.Confidence.nextBorder` is GENERATED from the source as well. -/
 def labelConfidence (o : COps R) (probs : List (List R)) (labels al : List Nat) (i lastBorder : Nat) :
     Option (R × Nat) :=
   match labels[i]?, al[i]?, al[i+1]? with
@@ -43,7 +45,7 @@ def labelConfidence (o : COps R) (probs : List (List R)) (labels al : List Nat) 
       match row[label]? with
       | none => none
       | some labelProb =>
-        let nextBorder := (a + 1 + a') / 2
+        let nextBorder := (Gen.Confidence.nextBorder (a : Int) (a' : Int)).toNat     -- GENERATED from the source
         let pos := (probs.drop lastBorder).take (nextBorder - lastBorder)
         let mask := fun (r : List R) =>
           let r1 := zeroAt o r label
@@ -65,7 +67,7 @@ def lineConfAux (o : COps R) (probs : List (List R)) (labels al : List Nat) :
 
 /-- `get_line_confidence` (CTC branch) -/
 def lineConfidence (o : COps R) (probs : List (List R)) (labels alignment : List Nat) : Option (List R) :=
-  lineConfAux o probs labels (alignment ++ [max 1000 probs.length]) labels.length 0 0
+  lineConfAux o probs labels (alignment ++ [(Gen.Confidence.sentinel (probs.length : Int)).toNat]) labels.length 0 0
 
 /-- `get_line_confidence_transformer`: `probs[arange(n), labels]` -/
 def lineConfidenceTransformer (probs : List (List R)) (labels : List Nat) : Option (List R) :=
